@@ -83,161 +83,89 @@ def finals_of(listing):
   return [listing[0], listing[2]]
 
 
-class _Raw:
-  """`response.raw` with the read semantics of urllib3 2.x over http.client (calibrated against the real
-  library on a loopback socket, and monitored on every run by `_loopback_monitor`):
-    * a read is clamped to the bytes the content-length still announces;
-    * a read that gets SOME bytes before the connection closes returns them silently, even if fewer than asked;
-    * a read that gets NO bytes although the content-length is not exhausted raises
-      ProtocolError('Connection broken: IncompleteRead(…)'); read(None) raises it whenever the body is short;
-    * without a content-length, reads return what is there and b'' at the end.
-  """
-
-  def __init__(self, data, inj, sizes, declared=None, available=None):
-    self._data, self._pos, self._inj, self._sizes = data, 0, inj, sizes
-    self._declared = declared                   # content-length (None: not announced)
-    self._avail = len(data) if available is None else min(available, len(data))
-
-  def _broken(self):
-    from urllib3.exceptions import IncompleteRead, ProtocolError
-    e = IncompleteRead(self._pos, self._declared - self._pos)
-    return ProtocolError(f'Connection broken: {e!r}', e)
-
-  def read(self, n=None, *a, **k):
-    self._inj.event('net', n)
-    self._sizes.append(n)
-    if n is not None and n < 0:
-      n = None
-    remaining = None if self._declared is None else self._declared - self._pos
-    if n is None:
-      out = self._data[self._pos:self._avail]
-      self._pos += len(out)
-      if remaining is not None and len(out) < remaining:
-        raise self._broken()
-      return out if remaining is None else out[:remaining]
-    want = n if remaining is None else min(n, remaining)
-    out = self._data[self._pos:min(self._pos + want, self._avail)]
-    self._pos += len(out)
-    if n != 0 and not out and remaining:
-      raise self._broken()
-    return out
-
-
-class _Resp:
-
-  def __init__(self, data, inj, sizes, variant='ok', request_no=0):
-    from requests.structures import CaseInsensitiveDict
-    v = parse_variant(variant)
-    self.headers = CaseInsensitiveDict({'Content-Type': 'application/octet-stream'})
-    self.status_code = 200
-    self.reason = 'OK'
-    self.url = 'https://example.invalid/'
-    declared, avail = len(data), None
-    if v[0] == 'status' and request_no < v[2]:
-      self.status_code, self.reason = v[1], 'Service Unavailable' if v[1] >= 500 else 'Not Found'
-      data = ERROR_PAGE
-      declared = len(data)
-      self.headers['Content-Type'] = 'text/html'
-    elif v[0] == 'none':
-      declared = None
-    elif v[0] == 'drop':
-      avail = v[1]
-    if declared is None:
-      self.headers['Transfer-Encoding'] = 'chunked'
-    else:
-      self.headers['Content-Length'] = str(declared)
-    self.ok = self.status_code < 400
-    self.raw = _Raw(data, inj, sizes, declared, avail)
-    self._data = data
-
-  def raise_for_status(self):
-    if self.status_code >= 400:
-      import requests
-      kind = 'Client' if self.status_code < 500 else 'Server'
-      raise requests.exceptions.HTTPError(f'{self.status_code} {kind} Error: {self.reason} for url: {self.url}',
-                                          response=self)
-    return None
-
-  def iter_content(self, chunk_size=1, decode_unicode=False):
-    import requests
-    from urllib3.exceptions import ProtocolError
-    while True:
-      try:
-        b = self.raw.read(chunk_size)
-      except ProtocolError as e:
-        raise requests.exceptions.ChunkedEncodingError(e)
-      if not b:
-        return
-      yield b
-
-  @property
-  def content(self):
-    return b''.join(self.iter_content(10240))
-
-  def close(self):
-    pass
-
-  def __enter__(self):
-    return self
-
-  def __exit__(self, *a):
-    return False
-
-
 class _Loopback:
-  """A real HTTP/1.1 server on 127.0.0.1 (port 0, daemon thread, time-outs everywhere) that serves the same
-  response variants as the stub; used for a handful of cases per run with the REAL requests/urllib3."""
+  """A real HTTP server on 127.0.0.1 (port 0, daemon threads, time-outs everywhere) that serves every download of
+  the check, whatever HTTP client the implementation uses (requests, urllib, http.client, …).  Variants
+  (see parse_variant): content-length + full body; no content-length (body delimited by closing the
+  connection); connection closed after K body bytes; error statuses with an error page."""
 
-  def __init__(self, data, variant):
+  def __init__(self):
     import socket
     import threading
-    self._data, self._v = data, parse_variant(variant)
+    self._data, self._v = b'', ('ok',)
     self._sock = socket.socket()
     self._sock.setsockopt(socket.SOL_SOCKET, socket.SO_REUSEADDR, 1)
     self._sock.bind(('127.0.0.1', 0))
-    self._sock.listen(8)
+    self._sock.listen(16)
     self._sock.settimeout(0.05)
     self.port = self._sock.getsockname()[1]
     self.requests = 0
     self._stop = False
+    self._conns = []
+    self._lock = threading.Lock()
     self._t = threading.Thread(target=self._run, daemon=True)
     self._t.start()
 
+  def configure(self, data, variant):
+    """the next call is served `data` in response variant `variant`; lingering connections of an earlier
+    (crashed) call are dropped"""
+    with self._lock:
+      conns, self._conns = self._conns, []
+    for c in conns:
+      try:
+        c.close()
+      except OSError:
+        pass
+    self._data, self._v, self.requests = data, parse_variant(variant), 0
+
   def _run(self):
     import socket
+    import threading
+    while not self._stop:
+      try:
+        c, _ = self._sock.accept()
+      except socket.timeout:
+        continue
+      except OSError:
+        return
+      with self._lock:
+        self._conns.append(c)
+      threading.Thread(target=self._serve, args=(c,), daemon=True).start()
+
+  def _serve(self, c):
     try:
-      while not self._stop:
-        try:
-          c, _ = self._sock.accept()
-        except socket.timeout:
-          continue
-        try:
-          c.settimeout(5.0)
-          buf = b''
-          while b'\r\n\r\n' not in buf:
-            x = c.recv(65536)
-            if not x:
-              break
-            buf += x
-          n = self.requests
-          self.requests += 1
-          v = self._v
-          status, reason, body, send, cl = 200, 'OK', self._data, None, True
-          if v[0] == 'status' and n < v[2]:
-            status, reason, body = v[1], ('Service Unavailable' if v[1] >= 500 else 'Not Found'), ERROR_PAGE
-          elif v[0] == 'none':
-            cl = False
-          elif v[0] == 'drop':
-            send = v[1]
-          head = f'HTTP/1.1 {status} {reason}\r\nContent-Type: application/octet-stream\r\nConnection: close\r\n'
-          if cl:
-            head += f'Content-Length: {len(body)}\r\n'
-          c.sendall((head + '\r\n').encode())
-          c.sendall(body if send is None else body[:send])
-        finally:
-          c.close()
+      c.settimeout(3.0)
+      buf = b''
+      while b'\r\n\r\n' not in buf:
+        x = c.recv(65536)
+        if not x:
+          return
+        buf += x
+      n = self.requests
+      self.requests += 1
+      v, data = self._v, self._data
+      status, reason, body, send, cl = 200, 'OK', data, None, True
+      if v[0] == 'status' and n < v[2]:
+        status, reason, body = v[1], ('Service Unavailable' if v[1] >= 500 else 'Not Found'), ERROR_PAGE
+      elif v[0] == 'none':
+        cl = False
+      elif v[0] == 'drop':
+        send = v[1]
+      head = f'HTTP/1.1 {status} {reason}\r\nContent-Type: application/octet-stream\r\nConnection: close\r\n'
+      if cl:
+        head += f'Content-Length: {len(body)}\r\n'
+      c.sendall((head + '\r\n').encode())
+      c.sendall(body if send is None else body[:send])
     except OSError:
       pass
+    finally:
+      try:
+        c.close()
+      except OSError:
+        pass
+      with self._lock:
+        if c in self._conns:
+          self._conns.remove(c)
 
   def close(self):
     self._stop = True
@@ -300,8 +228,8 @@ class C19(core.Property):
           'download responses with and without a content-length header, connections closed by the server after k of '
           'N announced bytes (inside the last block, at a block boundary, in an earlier block, k = 0; urllib3-faithful '
           'reads), HTTP error statuses with an error page for all / the first requests of a call; OSError out of every '
-          'unbuffered-size write; decompressed payloads ending in zero blocks / all zero; a handful of cases per run go '
-          'through the real requests/urllib3 over a real loopback socket and must agree with the stub), always '
+          'unbuffered-size write; decompressed payloads ending in zero blocks / all zero; EVERY download is served by a '
+          'real loopback HTTP server, so the check is independent of the HTTP client library), always '
           'survivable OSError at a publication step (rename/replace/move) followed by a crash at any later event '
           '(double fault), always followed by completed calls and a '
           'reuse call; non-trivial = at least one interruption happened after the first file-system effect; '
@@ -312,16 +240,14 @@ class C19(core.Property):
                  'rmdir, remove, fsync, files in sub-directories) — the final-name state must be one the model allows '
                  'at some crash point of its plan.  Temp-file names, their presence, length, clean-up and the order '
                  'of system calls are implementation freedom (recorded as diagnostics only).')
-  TRUSTED = ['POSIX rename atomicity; Python file objects / lzma / shutil.copyfileobj; network I/O of `requests` '
-             'is replaced by a local stub (headers, status, raw.read with the short-read / IncompleteRead semantics '
-             'of urllib3 2.x, iter_content); the stub is monitored on every run against the real requests/urllib3 '
-             'talking to a real loopback socket server on a handful of cases',
+  TRUSTED = ['POSIX rename / link atomicity; Python file objects / lzma / shutil; the loopback HTTP server of the harness '
+             '(real sockets: content-length + body, body delimited by closing the connection, connection closed after K '
+             'body bytes, error statuses with an error page) and the HTTP client the implementation chooses',
              'crashes are simulated by unwinding the call with a BaseException after flushing a byte prefix '
-             '(every on-disk state a real crash can leave is such a prefix state)']
+             '(every on-disk state a real crash can leave is such a prefix state); hard kills lose unflushed bytes']
   ASSUMPTIONS = ['a crash leaves, for the file being written, some prefix of the bytes handed to write()',
-                 'a connection that the server closes early behaves as with urllib3 2.x over http.client: reads return '
-                 'what arrived, only a read that gets nothing before content-length is exhausted raises (monitored '
-                 'against the real library on a loopback socket on every run)']
+                 'a connection that the server closes early is reported (or not) by the real HTTP client as it is: '
+                 'no stub stands between the implementation and the socket']
   QUICK_BUDGET_S = 60
   THOROUGH_BUDGET_S = 400
 
@@ -332,6 +258,8 @@ class C19(core.Property):
       raise core.InfraError(f'fedjax imported from {downloads.__file__}, expected {core.REPO}')
     self.dl = downloads
     self._pcache = {}
+    self.server = _Loopback()
+    self.last_requests = 0
     # Temp-name suffixes the implementation uses (stale temp files are planted under *its* names, so
     # that a different suffix stays a harmless rewrite).  In-place writers get the documented default.
     self.suffix = {0: '.partial', 1: '.partial'}
@@ -384,10 +312,6 @@ class C19(core.Property):
     # HTTP error statuses with an error page (and its content-length): for every request / only for the first ones
     for v in ('status:503', 'status:500:2', 'status:404', 'status:502:1', 'status:403:1'):
       yield {'kind': 'raw', 'size': 1000 if v.endswith('3') else B + 1, 'init': dict(empty), 'sched': [[0, 1000, 0, 0, v]]}
-    # the same variants through the real requests/urllib3 over a real loopback socket (monitors the stub)
-    for n_, v in ((1000, 'drop:400'), (B + 5, f'drop:{B + 2}'), (2 * B + 10, f'drop:{B + 3}'), (B + 1, f'drop:{B}'),
-                  (1000, 'none'), (1000, 'status:503'), (B + 1, 'ok')):
-      yield {'kind': 'raw', 'size': n_, 'init': dict(empty), 'loopback': v}
     # decompressed payloads that end in zero bytes (>= one copy block, a zero tail block, all zero)
     yield {'kind': 'lzma', 'size': 2 * C, 'zeros': C, 'init': {**empty, 'dl': True}, 'enumerate': 1}
     yield {'kind': 'lzma', 'size': C + 100, 'zeros': 100, 'init': dict(empty), 'sched': [[0, 1000, 0, 0], [1, 1000, 0, 0]]}
@@ -535,42 +459,33 @@ class C19(core.Property):
     return self._pcache[key]
 
   def run_call(self, d, name, call, inj, dl_bytes, read_sizes, hdr='ok', loopback=None):
-    """Runs one real call with all effects routed through `inj`.
-    Returns ('ok', path) | ('crash', None) | ('raise', ExceptionName).
-    `hdr` is the response variant (see parse_variant); with `loopback` (a _Loopback server) the real
-    requests/urllib3 talk to a real socket instead of the stub."""
-    import time as _time
+    """Runs one real call with all file-system effects routed through `inj`; downloads are served by the real
+    loopback HTTP server in response variant `hdr` (see parse_variant), so the check does not depend on the
+    HTTP client library the implementation uses.
+    Returns ('ok', path) | ('crash', None) | ('raise', ExceptionName); self.last_requests = requests the
+    server saw during the call."""
     dl = self.dl
     missing = object()
     saved = {k: dl.__dict__.get(k, missing) for k in ('lzma', 'log', 'time')}
-    nreq = [0]
-
-    def w_get(url, *a, **k):
-      inj.event('net', 'get')
-      nreq[0] += 1
-      return _Resp(dl_bytes, inj, read_sizes, hdr, nreq[0] - 1)
+    srv = self.server
 
     def w_lzma_open(filename, mode='rb', *a, **k):
       inj.event('read', 'open')
       f = _lzma.open(filename, mode, *a, **k)
       return _RFile(f, inj) if 'r' in mode else f
 
-    import requests as _requests
-    real_request = _requests.sessions.Session.request
-    if loopback is None:
-      # every high-level requests call (requests.get, Session.get, requests.request, …) ends in Session.request
-      def w_request(self_, method, url, *a, **k):
-        return w_get(url)
-      _requests.sessions.Session.request = w_request
     if saved['time'] is not missing:
       dl.time = _Proxy(saved['time'], sleep=lambda *_a: None)     # back-off sleeps are not part of the behaviour
-    dl.lzma = _Proxy(saved['lzma'], open=w_lzma_open)
+    if saved['lzma'] is not missing:
+      dl.lzma = _Proxy(saved['lzma'], open=w_lzma_open)
     dl.log = lambda *a, **k: None
+    srv.configure(dl_bytes, hdr)
+    env_saved = {k: os.environ.get(k) for k in ('NO_PROXY', 'no_proxy')}
+    os.environ['NO_PROXY'] = os.environ['no_proxy'] = '127.0.0.1,localhost'
     try:
       with FsTap(d, inj):
         if call == 0:
-          base = 'https://example.invalid' if loopback is None else f'http://127.0.0.1:{loopback.port}'
-          path = dl.maybe_download(base + '/some/dir/' + name + '?x=1', d)
+          path = dl.maybe_download(f'http://127.0.0.1:{srv.port}/some/dir/{name}?x=1', d)
         else:
           path = dl.maybe_lzma_decompress(os.path.join(d, name))
       return ('ok', path)
@@ -579,13 +494,14 @@ class C19(core.Property):
     except InjectedIOError:
       return ('crash', None)
     except Exception as e:   # pylint: disable=broad-except
-      if call == 0 and loopback is None and nreq[0] == 0 and type(e).__name__ in (
-          'ConnectionError', 'URLError', 'gaierror', 'MaxRetryError', 'NameResolutionError', 'NewConnectionError'):
-        raise core.InfraError(f'the download did not go through requests ({type(e).__name__}): the response stub of this '
-                              f'harness does not apply to the implementation')
       return ('raise', type(e).__name__)
     finally:
-      _requests.sessions.Session.request = real_request
+      self.last_requests = srv.requests
+      for k, v in env_saved.items():
+        if v is None:
+          os.environ.pop(k, None)
+        else:
+          os.environ[k] = v
       for k, v in saved.items():
         if v is missing:
           dl.__dict__.pop(k, None)
@@ -690,7 +606,7 @@ class C19(core.Property):
   def evaluate(self, case, ctx):
     kind, size, init = case['kind'], case['size'], case['init']
     if 'loopback' in case:
-      return self._loopback_monitor(case, ctx)
+      case = {'kind': case['kind'], 'size': case['size'], 'init': case['init'], 'sched': [[0, 1000, 0, 0, case['loopback']]]}
     P, D = self.payloads(kind, size, case.get('streams', 1), case.get('empty_first', False), case.get('zeros', 0))
     dlname, decname = self.names(kind)
     root = mkdtemp('verif_c19_')
@@ -700,50 +616,6 @@ class C19(core.Property):
       return self._schedule(case, ctx, root, P, D)
     finally:
       shutil.rmtree(root, ignore_errors=True)
-
-  def _loopback_monitor(self, case, ctx):
-    """The same uninterrupted download once against the stub and once through the REAL requests/urllib3
-    talking to a real socket: both must behave alike (the stub's faithfulness is part of the trusted
-    base, this monitors it), and the oracle is applied to both."""
-    kind, size, variant = case['kind'], case['size'], case['loopback']
-    P, D = self.payloads(kind, size)
-    dlname, _ = self.names(kind)
-    root = mkdtemp('verif_c19_')
-    probs, corr, seen = [], [], {}
-    old_np = os.environ.get('NO_PROXY')
-    os.environ['NO_PROXY'] = '127.0.0.1,localhost'
-    try:
-      for how in ('stub', 'real'):
-        d = self._fresh(root, how, kind, case['init'], P, D)
-        srv = _Loopback(P, variant) if how == 'real' else None
-        try:
-          r = self.run_call(d, dlname, 0, Injector(), P, [], variant, loopback=srv)
-        finally:
-          if srv is not None:
-            srv.close()
-        listing, _ = self.observe(d, kind, P, D)
-        seen[how] = [r[0], r[1] if r[0] == 'raise' else None, listing]
-        vk = parse_variant(variant)[0]
-        for key, txt in self.oracle_state(d, kind, P, D):
-          key += {'drop': '-on-drop', 'status': '-on-http-error'}.get(vk, '')
-          probs.append((key, f'download over {"a real loopback socket (real requests/urllib3)" if how == "real" else "the stub"}'
-                             f'{describe_variant(variant)}; call result {r[0]}: {txt}'))
-        cp = []
-        self._complete_and_check(d, kind, P, D, cp, ctx)
-        probs += [(k, f'[{how}] after a later good call: ' + t) for k, t in cp]
-      ctx.count('loopback_real_socket_cases')
-      if seen['stub'] != seen['real']:
-        corr.append(f'the requests stub is not faithful to the real library for variant {variant!r}, size {size}: '
-                    f'stub {seen["stub"]} vs real socket {seen["real"]}')
-    finally:
-      if old_np is None:
-        os.environ.pop('NO_PROXY', None)
-      else:
-        os.environ['NO_PROXY'] = old_np
-      shutil.rmtree(root, ignore_errors=True)
-    return Outcome(oracle_fail='; '.join(t for _, t in probs[:3]) or None, corr_fail='; '.join(corr[:2]) or None,
-                   key=probs[0][0] if probs else None, nontrivial=True,
-                   tags=('loopback', f'variant={parse_variant(variant)[0]}'), detail={'stub': seen.get('stub'), 'real': seen.get('real')})
 
   def _fresh(self, root, tag, kind, init, P, D):
     d = os.path.join(root, tag)
@@ -796,7 +668,7 @@ class C19(core.Property):
       inj = Injector()
       res = self.run_call(d, dlname, call, inj, P, [])
       st2 = os.stat(os.path.join(d, fn)) if os.path.exists(os.path.join(d, fn)) else None
-      touched = [e[0] for e in inj.events if e[0] == 'net']
+      touched = ['request'] * self.last_requests
       if res[0] != 'ok' or touched or st2 is None or st2.st_mtime_ns != st.st_mtime_ns or st2.st_size != st.st_size \
           or st2.st_ino != st.st_ino:
         probs.append((f'C19/{what}/not-reused',
